@@ -101,9 +101,18 @@ structure WFRequest (method target host : Bytes) (port : Nat) (hs : Dic) (body :
   noFraming : NoFraming hs
   bodyFits : body.length < 2147483648
 
-theorem clientWire_bytes (method target host : Bytes) (port : Nat) (hs : Dic) (body : Bytes) :
+theorem clientWire_bytes (method target host : Bytes) (port : Nat) (hs : Dic) (body : Bytes) (hnf : NoFraming hs) :
     serialize (clientMsg method target host port true hs body) = (clientWire method target host port hs body).bytes := by
-  simp [serialize, serializeWith, clientMsg, clientWire, wireHeaders, Wire.bytes, headerBlock, headerLines, sHostName, List.append_assoc]
+  have hte : teChunked (header (clientMsg method target host port true hs body).headers sTransferEncoding) = false := by
+    apply teChunked_of_no_te
+    unfold clientMsg
+    simp only
+    split
+    · rw [dicGet_setHeader_other _ _ _ _ (utoa_ne_nil _) (by rw [cap_cl]; decide)]; exact dicGet_te_of_noFraming hnf
+    · exact dicGet_te_of_noFraming hnf
+  unfold serialize
+  rw [serializeWith_plain _ _ hte]
+  simp [clientMsg, clientWire, wireHeaders, Wire.bytes, headerBlock, headerLines, sHostName, List.append_assoc]
 
 theorem clientWire_wf (method target host : Bytes) (port : Nat) (hs : Dic) (body : Bytes)
     (h : WFRequest method target host port hs body) : (clientWire method target host port hs body).WF := by
@@ -129,7 +138,7 @@ theorem request_exact (method target host : Bytes) (port : Nat) (hs : Dic) (body
     ∃ i' : Inp, readRequest i = (expectedRequest method target host port hs body, i') ∧ i'.data = rest ∧ Live i' ∧
       WFHeaders (wireHeaders method target host port hs body) := by
   have hwf := clientWire_wf method target host port hs body h
-  obtain ⟨i', h1, h2, h3⟩ := wire_request_exact _ hwf rest i hi (by rw [hd, clientWire_bytes])
+  obtain ⟨i', h1, h2, h3⟩ := wire_request_exact _ hwf rest i hi (by rw [hd, clientWire_bytes _ _ _ _ _ _ h.noFraming])
   exact ⟨i', h1, h2, h3, hwf.wfHeaders⟩
 
 /-- **frame_roundtrip (requests).**  For every method, target, header set and body (of any length), every
@@ -173,8 +182,22 @@ theorem chunked_request_roundtrip (method target host : Bytes) (port : Nat) (hs0
     · subst h; exact ⟨wf_name_host, hhp, hhpfit⟩
     · exact hD.wf y h
   have hbytes : (clientSend method target host port (setHeader hs0 sTransferEncoding sChunked) body).2 = x.bytes := by
+    have hcl0 : dicGet (setHeader hs0 sTransferEncoding sChunked) sContentLength = none := by
+      cases hg : dicGet (setHeader hs0 sTransferEncoding sChunked) sContentLength with
+      | none => rfl
+      | some v =>
+        exfalso
+        have hv : header (setHeader hs0 sTransferEncoding sChunked) sContentLength = v := by unfold header; rw [cap_cl, hg]; rfl
+        have hne : v ≠ [] := (hD.wf _ (dicGet_mem hg)).2.1.1
+        unfold isChunked at h3; rw [hv] at h3
+        cases v with
+        | nil => exact hne rfl
+        | cons a t => simp at h3
     unfold clientSend
-    simp only [h1, if_true, h2, h3]
+    simp only [h1, if_true, h2]
+    have hser := serializeWith_chunked sendBlock
+      (Msg.mk (clientCommand method target host port) (setHeader hs0 sTransferEncoding sChunked) body) hcl0 h1
+    rw [hser]
     simp [x, Wire.bytes, headerBlock, headerLines, clientCommand, sHostName, List.append_assoc]
   obtain ⟨i', hread, hdat, hlive⟩ := wire_request_exact x hwf rest
     (Inp.ofBytes ((clientSend method target host port (setHeader hs0 sTransferEncoding sChunked) body).2 ++ rest) cuts) ⟨rfl, rfl⟩
@@ -344,7 +367,11 @@ theorem response_roundtrip (proto : Bytes) (code : Nat) (hs : Dic) (body rest : 
   obtain ⟨_, hnc⟩ := framed_len_canon sendBlock hD body hcl hte hbody
   obtain ⟨i', hread, hdat, hlive⟩ := readResponse_dict proto code _ body body rest hp hcode hret.1 hD hcl hte hbody rfl
     (Inp.ofBytes (serialize (putResponse proto code hs body) ++ rest) cuts) ⟨rfl, rfl⟩
-    (by simp [Inp.ofBytes, serialize, serializeWith, putResponse, hnc, writeBody_plain sendBlock sendBlock_pos])
+    (by
+      have hte' : teChunked (header (putResponse proto code hs body).headers sTransferEncoding) = false := teChunked_of_no_te hte
+      unfold serialize
+      rw [serializeWith_plain _ _ hte']
+      simp [Inp.ofBytes, putResponse, hnc, writeBody_plain sendBlock sendBlock_pos])
   exact ⟨_, i', hread, hdat, hlive, ⟨rfl, rfl, rfl, rfl, rfl⟩⟩
 
 /-- **frame_roundtrip (streamed, chunked responses).**  A handler that sets `Transfer-Encoding: chunked`, streams any
@@ -370,8 +397,43 @@ theorem stream_roundtrip (proto : Bytes) (code : Nat) (hs : Dic) (parts : List B
     unfold isChunked; rw [(header_of_dicGet_none cap_cl hcl).1]; rfl
   obtain ⟨i', hread, hdat, hlive⟩ := readResponse_dict_chunked proto code _ parts rest hp hcode hret.1 hD hcl hte
     (Inp.ofBytes (serializeStream sendBlock (statusLine proto code) (setHeader hs sTransferEncoding sChunked) parts true ++ rest) cuts)
-    ⟨rfl, rfl⟩ (by simp [Inp.ofBytes, serializeStream, hchunk, List.append_assoc])
+    ⟨rfl, rfl⟩ (by simp [Inp.ofBytes, serializeStream, sentHeaders_no_cl hcl, hchunk, List.append_assoc])
   exact ⟨_, i', hread, hdat, hlive, ⟨rfl, rfl, rfl, rfl, rfl⟩⟩
+
+/-- **chunked_put_roundtrip** (after the repairs 07183e2, c720b96).  A handler that asks for the chunked coding
+(`setHeader("Transfer-Encoding", "chunked")`) and then gives its body with `put()`: the Content-Length that `put` sets does
+not go out, the body goes out in chunks of the send block, and the library ends the message with the last chunk; the
+client's reader returns exactly the code, the handler's dictionary (with the coding, without a length) and the body, for
+every fragmentation, and stops exactly behind the last chunk. -/
+theorem chunked_put_roundtrip (proto : Bytes) (code : Nat) (hs : Dic) (body rest : Bytes) (cuts : List Nat)
+    (hp : IsProto proto) (hcode : code < 2147483648) (hh : HandlerHeaders hs)
+    (hret : ReturnedAsIs code (setHeader hs sTransferEncoding sChunked)) :
+    ∃ (r : Response) (i' : Inp),
+      readResponse (Inp.ofBytes (serialize (Msg.mk (statusLine proto code)
+          (setHeader (setHeader hs sTransferEncoding sChunked) sContentLength (utoa body.length)) body) ++ rest) cuts) = (r, i') ∧
+      i'.data = rest ∧ Live i' ∧
+      SeesResponse r code proto (setHeader hs sTransferEncoding sChunked) body ∧
+      hasHeader r.headers sContentLength = false := by
+  have hD : Canon (setHeader hs sTransferEncoding sChunked) :=
+    canon_setHeader hh.canon wf_name_te wf_value_chunked (by unfold FitsLine; decide)
+  have hte : dicGet (setHeader hs sTransferEncoding sChunked) sTransferEncoding = some sChunked := by
+    have := dicGet_setHeader_same hs sTransferEncoding sChunked (by decide)
+    rwa [cap_te] at this
+  have hcl : dicGet (setHeader hs sTransferEncoding sChunked) sContentLength = none := by
+    rw [dicGet_setHeader_other hs sTransferEncoding _ sContentLength (by decide) (by rw [cap_te]; decide)]
+    exact dicGet_none_of_keys (canon_key_ne hh.canon (fun x hx => (hh.noFraming x hx).1))
+  have hchunk : isChunked (setHeader hs sTransferEncoding sChunked) = true := by
+    unfold isChunked; rw [(header_of_dicGet_none cap_cl hcl).1]; rfl
+  obtain ⟨hsent, hend⟩ := sentHeaders_put_chunked (utoa body.length) (utoa_ne_nil _) hcl hte
+  obtain ⟨i', hread, hdat, hlive⟩ := readResponse_dict_chunked proto code _ [body] rest hp hcode hret.1 hD hcl hte
+    (Inp.ofBytes (serialize (Msg.mk (statusLine proto code)
+      (setHeader (setHeader hs sTransferEncoding sChunked) sContentLength (utoa body.length)) body) ++ rest) cuts)
+    ⟨rfl, rfl⟩ (by
+      unfold serialize serializeWith
+      simp only [hsent, hend, hchunk]
+      simp [Inp.ofBytes, List.append_assoc])
+  refine ⟨_, i', hread, hdat, hlive, ⟨rfl, rfl, by simp, rfl, rfl⟩, ?_⟩
+  exact (header_of_dicGet_none cap_cl hcl).2
 
 /-- what the server writes for a file response to `Range: bytes=b-e` that `putFile` accepts as bytes `b'..e'` -/
 def fileRangeHeaders (hs : Dic) (b' e' n : Nat) : Dic :=
@@ -561,7 +623,9 @@ theorem exchange_roundtrip (opt : Bool) (base : Bytes) (s : Sent) (p : Plan) (b 
   obtain ⟨_, hnc⟩ := framed_len_canon sendBlock hD.1 b hD.2.1 hD.2.2.1 hb
   obtain ⟨i2, hresp, hdat2, _⟩ := readResponse_dict sHttp11 p.code _ b b [] (Or.inl rfl) hcode hret.1 hD.1 hD.2.1 hD.2.2.1 hb rfl
     (Inp.ofBytes (interimOf s.expected.headers ++ (serve1 opt s.expected p [] base).wire) cuts2) ⟨rfl, rfl⟩
-    (by rw [hexp, hwire]; simp [Inp.ofBytes, serializeWith, hnc, writeBody_plain sendBlock sendBlock_pos])
+    (by
+      rw [hexp, hwire, serializeWith_plain _ _ (teChunked_of_no_te hD.2.2.1)]
+      simp [Inp.ofBytes, hnc, writeBody_plain sendBlock sendBlock_pos])
   refine ⟨i1, _, i2, hread, hdat1, hcalled, hresp, hdat2, ⟨rfl, rfl, rfl, rfl, rfl⟩, ?_⟩
   intro nv hnv huniq hna
   show header (servedHeaders s.expected p b.length) nv.1 = nv.2
